@@ -115,7 +115,7 @@ theorem labelPos_lookup (prog : List Ins) (l : String) (p : Nat) :
       | _ => simp only []
 
 /-- the stack / scratch opcodes never jump -/
-theorem stepOther_pc (s s' : State) (name : String) (h : stepOther s name = .next s') : s'.pc = s.pc + 1 := by
+theorem stepOther_pc (e : Env) (s s' : State) (name : String) (h : stepOther e s name = .next s') : s'.pc = s.pc + 1 := by
   unfold stepOther at h
   simp only [] at h
   repeat' split at h
